@@ -1157,7 +1157,8 @@ Definition wb_tail (m : mode) (k : cst) (c : content) (cdims : list string) (cva
     let s2 := if isnew then create_dim m bdim size (upd_dimsz (cons (bdim, size)) s1) else s1 in
     let default := if isnew then (cvar ++ "_bounds")%string else "bounds" in
     let '(bv, s3) := netcdf_name (match k_bvar k with Some n => n | None => default end) s2 in
-    let attrs := filter (fun p => negb (smem (fst p) c17_omit_bounds_props && has_prop (c_props c) (fst p)))
+    let attrs := filter (fun p => negb (smem (fst p) c17_omit_bounds_props &&
+                                        option_eqb String.eqb (prop_of (c_props c) (fst p)) (Some (snd p))))
                         (b_props b) in
     let s4 := write_var m bv nd bc attrs [] s3 in
     ([("bounds", [("", bv)])], upd_bnds (cons (cvar, bv)) s4)
@@ -1278,7 +1279,7 @@ Proof.
   intro H. unfold write_anc. destruct (find_seen _ _ _ s) as [en|] eqn:F.
   - simpl. split; [exact H | eapply inv_find_seen; eassumption].
   - inv_name H. inv_bounds Hi. simpl. split; [|apply fresh_ok, Hf].
-    apply inv_write_var; [exact Hf | intros x [] | exact Hbi].
+    apply inv_write_var; assumption.
 Qed.
 
 Lemma inv_write_msr e m k d s :
